@@ -75,6 +75,14 @@ def fault_matrix_cases(tier, rng):
                     data = bytes(rng.getrandbits(8) for _ in range(9))
                     yield campaign.TransferCase(cfg, [data], [Fault("s2d", k, "flip", rng.randint(1, 3))], tag="c14m")
                     yield campaign.TransferCase(cfg, [data], [], None, reject_round=k, tag="c14m")
+            # Filestore Rejection (4) declared while the destination file is created: at the transaction start, and by the
+            # re-sent Metadata PDU while the deferred NAK procedure is already running (Metadata lost, EOF first)
+            for drop_md in (False, True):
+                cfg = Cfg(mode=0, closure=rng.random() < 0.5, max_seg=4, cktype=rng.choice([2, 3]), ack_limit=3, nak_limit=3,
+                          imm_nak=False, disposition=rng.random() < 0.4, **tables((4, 5, 7)))
+                data = bytes(rng.getrandbits(8) for _ in range(9))
+                yield campaign.TransferCase(cfg, [data], [Fault("s2d", 0, "drop")] if drop_md else [], None, reject_round=0,
+                                            reject_mode=2, tag="c14m")
             # File Size Error (6): File Data beyond the EOF's size / EOF smaller than the progress (receiver alone)
             for _ in range(2 if quick else 12):
                 c = campaign.rand_hostile_case(rng, **tables((6, 5, 4)))
